@@ -133,10 +133,17 @@ def obligations(ctx):
         if 'ok_node' in h:
             hs_ok.add(h['ok_node'])
     start = {T.nodes[0].id}
-    reach_wo = T.reach(start, avoid=hs_ok) if hs_ok else T.reach(start)
+    # also accepted: behind the ERROR edge of the header write when the header is re-read first (the write may have been
+    # partial; the publication is then conditional on which header is current)
+    hdr_after_err = set()
+    HDRn = {e['node'] for e in T.events('HDR')}
+    for h in H:
+        if 'err_node' in h:
+            hdr_after_err |= (T.reach({h['err_node']}) & HDRn)
+    reach_wo = T.reach(start, avoid=hs_ok | hdr_after_err) if hs_ok else T.reach(start)
     for p in P:
         if p['node'] in reach_wo:
-            pth = T.path(start, p['node'], avoid=hs_ok)
+            pth = T.path(start, p['node'], avoid=hs_ok | hdr_after_err)
             res.append(bad('C11.O4', '%s | P=%s before H success' % (T.entry.qual, p.get('how')),
                            'the shared free list is replaced at %s on a path that has not passed the success edge of the header write: '
                            'if the header write then fails (or is never reached) the visible snapshot is still the old one while the '
